@@ -8,7 +8,7 @@
 From Coq Require Import List ZArith Bool Lia Sorting.Sorted.
 From Verif Require Import C10.Model C10.Proofs C10.Proofs2 C10.Proofs3 C10.Plugin C10.PluginProofs
   C10.Split C10.SplitProofs C10.Exact C10.Release C10.Counts C10.Ttl C10.Bridge
-  C10.Sized C10.SizedProofs C10.PluginLift C10.Timer C10.Observe.
+  C10.Sized C10.SizedProofs C10.PluginLift C10.Timer C10.Observe C10.Scrape C10.ScrapeProofs.
 Import ListNotations.
 Open Scope Z_scope.
 
@@ -1178,3 +1178,102 @@ Example C10_expire_without_slot_nontrivial :
    count_at c 2000 (log (run c (init c 0) acts)),
    run_ticks c (init c 0) acts) = (true, true, true, 1, [2000]).
 Proof. vm_compute. reflexivity. Qed.
+
+(* ================================================================== *)
+(* Metrics reads (Scrape.v).                                           *)
+(*                                                                    *)
+(* The plugin registers an observable gauge (requests_in_queue); its   *)
+(* callback observeRequestsInQueue runs on a goroutine of the metrics  *)
+(* SDK at any point of a plugin-level schedule.  A schedule with       *)
+(* metrics reads is a list of [maction]s: the actions of Plugin.v plus *)
+(* [MScrape now] (always enabled: one queuesMutex section).            *)
+
+(* ---- frame: a metrics read changes no queue and no verdict ---- *)
+
+(* The callback of the code only reads: after a metrics read the whole plugin
+   state (every map entry, every queue ever constructed with its heap, window
+   counter and grant log, every request record) is what it was; a schedule with
+   metrics reads ends in the state of the same schedule without them, so every
+   verdict, every queue instance and every theorem of the plugin layer above is
+   untouched by metrics reads at arbitrary points. *)
+Theorem C10_metrics_read_frame : forall tv v,
+  (forall s now, mexec tv ReadOnly v s (MScrape now) = s) /\
+  (forall s acts, mrun tv ReadOnly v s acts = prun tv v s (strip acts)) /\
+  (forall acts k rid,
+     pverdict (mrun tv ReadOnly v pinit acts) k rid = pverdict (prun tv v pinit (strip acts)) k rid) /\
+  (forall acts k,
+     insts (pget k (mrun tv ReadOnly v pinit acts)) = insts (pget k (prun tv v pinit (strip acts)))).
+Proof.
+  intros tv v. split; [intros; apply mexec_scrape_readonly|].
+  split; [intros; apply mrun_readonly|].
+  split; intros; now rewrite mrun_readonly.
+Qed.
+Print Assumptions C10_metrics_read_frame.
+
+(* ---- releases per remedy and window <= quota on schedules with metrics reads ---- *)
+
+Definition C10_plugin_release_bound_with_metrics_for (tv : ttl_variant) (sv : scrape_variant) : Prop :=
+  forall acts k w,
+    kgrants w (insts (pget k (mrun tv sv Atomic pinit acts))) <= Z.max 0 (kquota k).
+
+Theorem C10_plugin_release_bound_with_metrics : forall tv,
+  C10_plugin_release_bound_with_metrics_for tv ReadOnly.
+Proof. intros tv acts k w. rewrite mrun_readonly. apply C10_plugin_release_bound. Qed.
+Print Assumptions C10_plugin_release_bound_with_metrics.
+
+(* at most one queue per remedy ever exists, metrics reads or not *)
+Theorem C10_plugin_one_queue_per_remedy_with_metrics : forall tv acts k,
+  let ks := pget k (mrun tv ReadOnly Atomic pinit acts) in
+  (length (insts ks) <= 1)%nat /\
+  (forall q, In q (preqs ks) -> q_inst q = cur ks /\ cur ks <> None).
+Proof. intros tv acts k. rewrite mrun_readonly. apply C10_plugin_one_queue_per_remedy. Qed.
+Print Assumptions C10_plugin_one_queue_per_remedy_with_metrics.
+
+(* the strict replay function of suite plugin (histories with metrics reads)
+   against the one without: same final state, same observations at the actions
+   of Plugin.v; the value a metrics read reports is never the sentinel *)
+Theorem C10_mrun_obs_is_prun_obs : forall tv v s acts,
+  prun_obs tv v s (strip acts) =
+    (drop_scrapes acts (fst (mrun_obs tv ReadOnly v s acts)), snd (mrun_obs tv ReadOnly v s acts)) /\
+  0 <= gauge_total s.
+Proof. intros. split; [apply mrun_obs_readonly|apply gauge_total_nonneg]. Qed.
+Print Assumptions C10_mrun_obs_is_prun_obs.
+
+(* ---- the variant whose callback forgets idle queues over-releases ---- *)
+
+(* Seeded change C10-10: request 1 takes the only slot of the window at once
+   (nobody waits: Counts() sums to 0); the metrics read deletes the idle queue
+   from the map, and with it the window counter; request 2 of the same remedy,
+   in the same window, misses the lookup, gets a new queue whose counter is 0 and
+   is let through: 2 grants in a window whose quota is 1. *)
+Definition scrape_forgets_window : list maction :=
+  [MA (PK key1 (KLookup 1 10)); MA (PK key1 (KEnq 1 par1 [] 10 10));
+   MScrape 11;
+   MA (PK key1 (KLookup 2 12)); MA (PK key1 (KEnq 2 par1 [] 12 12)); MA (PK key1 (KR 2 RPark 12))].
+
+Theorem C10_plugin_release_bound_drops_idle_refuted :
+  ~ C10_plugin_release_bound_with_metrics_for code_ttl DropsIdle.
+Proof.
+  intro H. specialize (H scrape_forgets_window key1 (5 * second)).
+  revert H. vm_compute. intro H. apply H. reflexivity.
+Qed.
+Print Assumptions C10_plugin_release_bound_drops_idle_refuted.
+
+(* the same schedule under both variants; and a metrics read while somebody is
+   parked (Counts() = 1) forgets nothing in either variant *)
+Example C10_metrics_read_outcomes :
+  let res sv acts := let s := mrun code_ttl sv Atomic pinit acts in
+                     (length (insts (pget key1 s)), kgrants (5 * second) (insts (pget key1 s)),
+                      pverdict s (Some key1) 1, pverdict s (Some key1) 2) in
+  let parked := [MA (PK key1 (KLookup 1 10)); MA (PK key1 (KEnq 1 par1 [] 10 10));
+                 MA (PK key1 (KLookup 2 11)); MA (PK key1 (KEnq 2 par1 [] 11 11)); MA (PK key1 (KR 2 RPark 11));
+                 MScrape 12;
+                 MA (PK key1 (KTick 0%nat (5 * second))); MA (PK key1 (KR 2 RReturn (5 * second)))] in
+  res ReadOnly scrape_forgets_window = (1%nat, 1, Some (VNoOp, 10), None) /\
+  res DropsIdle scrape_forgets_window = (2%nat, 2, Some (VNoOp, 10), Some (VNoOp, 12)) /\
+  fst (mrun_obs code_ttl ReadOnly Atomic pinit scrape_forgets_window) = [0; 0; 0; 0; 1; 1] /\
+  fst (mrun_obs code_ttl DropsIdle Atomic pinit scrape_forgets_window) = [0; 0; 0; 0; 0; -1] /\
+  res ReadOnly parked = res DropsIdle parked /\
+  res ReadOnly parked = (1%nat, 1, Some (VNoOp, 10), Some (VNoOp, 5 * second)) /\
+  fst (mrun_obs code_ttl ReadOnly Atomic pinit parked) = [0; 0; 0; 1; 1; 1; 1; 0].
+Proof. vm_compute. repeat split. Qed.
